@@ -63,6 +63,10 @@ def tasks(tier):
                             out.append(dict(transport=tr, size=size, pairs=[pr], ending=end, driver=drv))
                     else:
                         out.append(dict(transport=tr, size=size, pairs=pairs, ending=end, driver=drv))
+    # a polling reader (timeout=0): the branches of read_nonblocking that depend on timeout != 0 are skipped
+    for tr in ('pty-select', 'pty-poll', 'fd-pipe', 'socket'):
+        for end in ((['exit', 'hup+exit'] if tr.startswith('pty') else ['close'])):
+            out.append(dict(transport=tr, size=2000, pairs=[(1, 1)] if q else [(1, 1), (3, 0), (2000, 5)], ending=end, driver='rnb0'))
     # short reads (the kernel may return fewer bytes than are available): pty transports, one per execution
     for tr in ('pty-select', 'pty-poll'):
         for drv in ('rnb', 'expect'):
@@ -133,6 +137,8 @@ class Setup(object):
             env.sockets[id(b)] = b
             env.fds.add(a.fileno())
             sp = socket_pexpect.SocketSpawn(self.sock, maxread=size, timeout=T)
+            # the owner of the socket changes its timeout after handing it over: THAT is the setting to preserve
+            self.sock.settimeout(3.25)
             env.add('fn', lambda: b.sendall(x) if x else None)
             env.add('fn', lambda: b.sendall(y) if y else None)
             env.add('fn', lambda: b.close())
@@ -167,8 +173,8 @@ def run_config(ch, task, x, y, record=None):
             p0 = env.points
             env.popen_dirty = True
             try:
-                if task['driver'] == 'rnb':
-                    c = sp.read_nonblocking(size, T)
+                if task['driver'] in ('rnb', 'rnb0'):
+                    c = sp.read_nonblocking(size, T if task['driver'] == 'rnb' else 0)
                     if env.points - p0 > 1 and len(env.script) < n_actions_before:
                         inside = True
                     if not isinstance(c, bytes):
@@ -200,6 +206,14 @@ def run_config(ch, task, x, y, record=None):
                 if env.points - p0 > 1 and len(env.script) < n_actions_before:
                     inside = True
                 timeouts += 1
+                if task['driver'] == 'rnb0':
+                    # a polling reader: between two polls the peer gets on with its script
+                    if timeouts > 12:
+                        viol = ('no-eof', 'polling reader: TIMEOUT %d times although the peer finished' % timeouts)
+                        break
+                    if timeouts >= 2 and env.untimed_ready():
+                        env.fire(env.script.pop(0))
+                    continue
                 if task['driver'] == 'expect':
                     got = sp.before
                 if timeouts >= 2:
@@ -207,12 +221,12 @@ def run_config(ch, task, x, y, record=None):
                 if timeouts > 6:
                     viol = ('no-eof', 'TIMEOUT %d times although the peer finished long ago' % timeouts)
                     break
-            if st.sock is not None and st.sock.gettimeout() != 7.5:
-                viol = ('socket-timeout', 'socket timeout left at %r (was 7.5)' % (st.sock.gettimeout(),))
+            if st.sock is not None and st.sock.gettimeout() != 3.25:
+                viol = ('socket-timeout', 'socket timeout left at %r (the owner had set 3.25)' % (st.sock.gettimeout(),))
                 break
         if viol is None:
-            if st.sock is not None and st.sock.gettimeout() != 7.5:
-                viol = ('socket-timeout', 'socket timeout left at %r (was 7.5)' % (st.sock.gettimeout(),))
+            if st.sock is not None and st.sock.gettimeout() != 3.25:
+                viol = ('socket-timeout', 'socket timeout left at %r (the owner had set 3.25)' % (st.sock.gettimeout(),))
             elif got != want:
                 sym = 'lost' if len(got) < len(want) else 'extra'
                 viol = (sym, 'EOF after %d of %d bytes: got %r..., written %r...'
